@@ -27,7 +27,7 @@ func init() {
 }
 
 func runC01(r *core.Run) {
-	r.Rule("(a) seeded sequential adversarial histories (replay, duplicates with changed witness/dleq/amount, spent/pending proofs into swaps and melts, restarts) judged against the reference model plus stickiness probes; (b) controlled-scheduler enumeration, up to a preemption bound (quick 3, thorough 5), of the interleavings at DB/LN-call granularity of two concurrent requests presenting the same proof (swap||swap, swap||melt, melt||melt, melt||checkstate) for each Lightning outcome; thorough adds sampled triples, free-running stress checked with porcupine and a -race pass. Non-trivial = a sequential operation that re-presented a used or locked secret, or a schedule in which both requests took a step before the other finished")
+	r.Rule("(a) seeded sequential adversarial histories (replay, duplicates with changed witness/dleq/amount, spent/pending proofs into swaps and melts, restarts) judged against the reference model plus stickiness probes; (b) controlled-scheduler enumeration, up to a preemption bound (quick 3, thorough 5), of the interleavings at DB/LN-call granularity of two concurrent requests presenting the same proof (swap||swap, swap||melt, melt||melt, melt||checkstate) for each Lightning outcome; thorough adds sampled triples, free-running stress checked with porcupine and a -race pass. the sequential histories also ask POST /v1/checkstate about their first proofs with the same request bytes every fifth operation (SPENT must be answered SPENT whatever was answered to those bytes before); every other stress history goes through the HTTP router; Non-trivial = a sequential operation that re-presented a used or locked secret, or a schedule in which both requests took a step before the other finished")
 	r.Assume("between two DB/LN calls a request touches no shared mutable state (DESIGN 1.1), so DB/LN-call interleavings are the observable ones; SQLite, LN model trusted")
 	if os.Getenv("VERIF_RACE_CHILD") != "" {
 		c01Stress(r) // the -race child repeats the concurrent workload only
